@@ -55,3 +55,8 @@ CASES += [
     {"name": "ground-to-one-exciton dephasing without the square", "kind": "mutant", "rule": "C12-F", "edits": [
         ("quantarhei/builders/aggregate_base.py", "                return self.Dr[Nf, Nf]**2", "                return self.Dr[Nf, Nf]", 1)]},
 ]
+
+CASES += [
+    {"name": "dipole tolerance scales with the first power of the dipoles (the repaired defect)", "kind": "mutant", "rule": "C12-G", "edits": [
+        (ASP, "        dip_tol = self.D2_max*dtol", "        dip_tol = numpy.sqrt(self.D2_max)*dtol", 3)]},
+]
